@@ -12,8 +12,15 @@ pub struct SerializableKValue<'a>(pub &'a KValue);
 thread_local! {
     // The addresses of the lists and maps that are currently being serialized,
     // a container that contains itself would otherwise be serialized endlessly.
+    // Tuples are registered as well (with a marker instead of an address),
+    // so that the length of the list is the current nesting depth.
     static PARENT_CONTAINERS: std::cell::RefCell<Vec<usize>> = const { std::cell::RefCell::new(Vec::new()) };
 }
+
+// The serializers are recursive, so the nesting of containers has to be limited to avoid
+// overflowing the stack. The limit matches the recursion limit that `serde_json` applies when
+// reading: more deeply nested output couldn't be read back.
+const NESTING_LIMIT: usize = 128;
 
 // Registers a container as being serialized until the guard is dropped
 struct ParentContainerGuard;
@@ -25,6 +32,10 @@ impl ParentContainerGuard {
                 Err(ser::Error::custom(
                     "serialization isn't supported for a container that contains itself",
                 ))
+            } else if parents.len() >= NESTING_LIMIT {
+                Err(ser::Error::custom(format!(
+                    "serialization isn't supported for containers that are nested more than {NESTING_LIMIT} levels deep",
+                )))
             } else {
                 parents.push(container_address);
                 Ok(Self)
@@ -66,6 +77,10 @@ impl Serialize for SerializableKValue<'_> {
                 seq.end()
             }
             KValue::Tuple(t) => {
+                // Tuples can't contain themselves, a marker that differs from every (aligned)
+                // address and from the markers of the other levels is registered for the depth
+                let marker = PARENT_CONTAINERS.with_borrow(|parents| parents.len() * 2 + 1);
+                let _guard = ParentContainerGuard::new(marker)?;
                 let mut seq = s.serialize_seq(Some(t.len()))?;
                 for element in t.iter() {
                     seq.serialize_element(&SerializableKValue(element))?;
